@@ -36,6 +36,8 @@ inductive Act (β : Type) where
 structure BS (σ β : Type) where
   s : σ
   acts : List (Act β)
+  /-- ghost: calls of the user-supplied function so far -/
+  calls : Nat := 0
 
 def BodyT (σ β X : Type) : Type := BS σ β → BS σ β × Except After X
 
@@ -57,6 +59,8 @@ def plainSend (ch : Nat) (v : β) : BodyT σ β Unit := act (.send ch v .plain)
 def sleep (d : Nat) : BodyT σ β Unit := act (.sleep d)
 def recvSel (ch : Nat) : BodyT σ β Unit := act (.recvSel ch)
 def afterSel (d : Nat) : BodyT σ β Unit := act (.afterSel d)
+/-- the results of ONE call of the user-supplied function (counted) -/
+def applyF {γ : Type} (r : γ) : BodyT σ β γ := fun b => ({ b with calls := b.calls + 1 }, .ok r)
 def ret : BodyT σ β X := fun b => (b, .error .stop)
 def next : BodyT σ β X := fun b => (b, .error .cont)
 def getS : BodyT σ β σ := fun b => (b, .ok b.s)
@@ -68,9 +72,11 @@ def forN : Nat → BodyT σ β Unit → BodyT σ β Unit
   | n + 1, b => BodyT.bind b fun _ => forN n b
 
 def runBody (m : BodyT σ β Unit) (s : σ) : σ × List (Act β) × After :=
-  match m ⟨s, []⟩ with
+  match m { s := s, acts := [] } with
   | (b, .ok _) => (b.s, b.acts, .cont)
   | (b, .error a) => (b.s, b.acts, a)
+
+def callsOf (m : BodyT σ β Unit) (s : σ) : Nat := (m { s := s, acts := [] }).1.calls
 
 /-! ### hand-written per-iteration specifications -/
 
